@@ -382,6 +382,21 @@ pub fn check_ix(c: &IxCase, l: &mut Local) -> Result<(), String> {
             }
         }
     }
+    // ---- liquidity amounts beyond the signed 128-bit range name no withdrawal (2^128 - k must not be read as +k): always refused
+    for amt in [u128::MAX, u128::MAX - (c.liquidity % 1_000_000), (1u128 << 127) | (c.liquidity >> 1), (1u128 << 127) + 1] {
+        for is_v2 in [v2, true] {
+            let mut w = h.w.clone();
+            let before = w.position_state(p).map(|s| s.liquidity);
+            if w.exec(&w.ix_decrease(p, amt, 0, 0, is_v2)).ok() {
+                return Err(format!("decrease of liquidity amount {amt} (>= 2^127) accepted; position liquidity {before:?} -> {:?}", w.position_state(p).map(|s| s.liquidity)));
+            }
+            let mut w = h.w.clone();
+            if amt > i128::MAX as u128 && w.exec(&w.ix_increase(p, amt, u64::MAX, u64::MAX, is_v2)).ok() {
+                return Err(format!("increase of liquidity amount {amt} (>= 2^127) accepted"));
+            }
+        }
+        l.count("out_of_range_liquidity_amount_refused");
+    }
     // ---- by token amounts: adds exactly the largest fitting liquidity.  Maxima: generated, and (second pass) exactly what the generated
     //      liquidity costs incl. transfer fee, so that the request meets the caller's maximum with equality
     let exact_maxima = match position_amounts(c.liquidity, st.sqrt_price, pl, pu, true) {
